@@ -1067,6 +1067,18 @@ func (c *Conn) closeWithError(err error) error {
 func (c *Conn) closeWithErrorWithoutLock(err error) error {
 	c.closeErr = err
 
+	// the error paths of Write, Writev, Sendfile and flush come here
+	// without having stopped the deadline timers (c.closed is already set,
+	// so nobody arms new ones).
+	if c.wTimer != nil {
+		c.wTimer.Stop()
+		c.wTimer = nil
+	}
+	if c.rTimer != nil {
+		c.rTimer.Stop()
+		c.rTimer = nil
+	}
+
 	// a dial that is closed before it completed (timeout, Close, error)
 	// still owes its callback: report the failure. c.closed was set under
 	// the mutex before we got here, so takeOnConnected leaves it to us.
